@@ -2,7 +2,7 @@
 generated scratch tree (directories and regular files) compared with the model and with std::filesystem."""
 from engine import Spec
 
-NNAMES = 13
+NNAMES = 17
 SEGS = [[97], [98, 99], [46], [46, 46], [32], [97, 46, 98], [195, 188], [100, 105, 114], [120] * 5, [58], [68, 58]]
 SEPS = [[47], [47], [47], [92], [47, 47], [92, 47]]
 
@@ -36,7 +36,7 @@ def gen_case(rng, maxops):
     used = set([()])
     for _ in range(rng.range(2, maxops)):
         k = rng.weighted([("join", 6), ("name", 3), ("parent", 3), ("abs", 1), ("mkdir", 5), ("mkfile", 5), ("stat", 4), ("size", 4),
-                          ("list", 3), ("visit", 2)])
+                          ("list", 3), ("visit", 2), ("nested", 2)])
         if k == "join":
             lines.append([20] + enc(rand_path(rng) if rng.chance(9, 10) else []) + enc(rand_name(rng)))
         elif k == "name":
@@ -49,7 +49,8 @@ def gen_case(rng, maxops):
             parent = rng.choice(dirs)
             if len(parent) >= 4:
                 continue
-            nm = rng.below(NNAMES)
+            nm = rng.below(NNAMES) if rng.chance(4, 5) else rng.choice([13, 14, 15, 16])
+            if nm >= 15 and k == "mkfile": nm = rng.below(13)
             p = parent + [nm]
             if tuple(p) in used and not rng.chance(1, 10):
                 continue
@@ -60,6 +61,11 @@ def gen_case(rng, maxops):
                 lines.append([40] + p)
             else:
                 lines.append([41, rng.choice([0, 0, 1, 7, 100, 4096, 65536, rng.range(0, 3000)])] + p)
+        elif k == "nested":
+            deep = sorted(dirs, key=lambda d: -sum(150 if x >= 15 else 1 for x in d))
+            p = list(deep[0] if rng.chance(2, 3) else rng.choice(dirs))
+            q = list(rng.choice(dirs + files))
+            lines.append([54, len(p)] + p + q)
         else:
             pool = dirs + files
             p = list(rng.choice(pool))
@@ -85,7 +91,7 @@ class C18(Spec):
     rule = ("cases of 3-40 operations: join / getPathName / getParentDirectory / isAbsolute on strings built from 11 segments (incl. '.', "
             "'..', spaces, UTF-8, 'D:') and 6 separator forms ('/', '\\\\', doubled, mixed), relative and absolute, with and without "
             "trailing separator, empty strings; mkdir / create-file (sizes 0-64 KiB) building a scratch tree of depth <= 4 over 13 names "
-            "(spaces, dots, hidden, UTF-8, invalid UTF-8 bytes), then exists/isFile/isDirectory, size, listChildren and DirectoryVisitor "
+            "(spaces, dots, hidden, '..data', '...', UTF-8, invalid UTF-8 bytes, two names of 150+ bytes so that working directories exceed 260 bytes), then exists/isFile/isDirectory, size, listChildren and DirectoryVisitor "
             "on existing and missing paths; non-trivial = at least one join and one filesystem query")
     level_text = ("Kernel-checked: (strings) for every non-empty d and every non-empty n without '/' and '\\\\', getPathName(join(d, n)) = n "
                   "and getParentDirectory(join(d, n)) = d without one trailing '/'; join(p, q) = q whenever q is absolute or p is empty; "
@@ -112,5 +118,5 @@ class C18(Spec):
 
     def classify(self, lines):
         names = {"20": "join", "21": "getPathName", "22": "getParentDirectory", "23": "isAbsolute", "40": "mkdir", "41": "create file",
-                 "50": "exists/isFile/isDirectory", "51": "size", "52": "listChildren", "53": "DirectoryVisitor"}
+                 "50": "exists/isFile/isDirectory", "51": "size", "52": "listChildren", "53": "DirectoryVisitor", "54": "nested DirectoryVisitors"}
         return sorted({"op:" + names.get(l.split()[0], "?") for l in lines[1:] if l.split()})
